@@ -72,6 +72,8 @@ def pure(e):
         return pure(e.value)
     if isinstance(e, ast.Call) and isinstance(e.func, ast.Name) and e.func.id in _PURE_CALLS and not e.keywords:
         return all(pure(a) for a in e.args)
+    if isinstance(e, ast.Call) and isinstance(e.func, ast.Name) and e.func.id == "super" and not e.args and not e.keywords:
+        return True  # the proxy object: building it has no effect
     return False
 
 
@@ -541,6 +543,24 @@ class Inliner:
             tname, val = st.targets[0].id, st.value
         elif isinstance(st, ast.AnnAssign) and isinstance(st.target, ast.Name) and st.value is not None:
             tname, val = st.target.id, st.value
+        elif (isinstance(st, ast.Return) or (isinstance(st, ast.Assign) and len(st.targets) == 1 and isinstance(st.targets[0], ast.Attribute)
+                                             and pure(st.targets[0].value))) \
+                and isinstance(st.value, ast.ListComp) and len(st.value.generators) == 1 and not st.value.generators[0].is_async:
+            # `return [..]` / `self.x = [..]`: through a fresh local (the list is complete before it is returned / stored)
+            hs0 = [self._target(c, cls_name, local_names) for c in ast.walk(st.value.elt) if isinstance(c, ast.Call)]
+            if not any(h is not None and h.kind in ("straight", "tail") for h in hs0):
+                return None
+            self.counter += 1
+            tmp = f"_lc{self.counter}"
+            a1 = ast.Assign(targets=[ast.Name(id=tmp, ctx=ast.Store())], value=st.value)
+            if isinstance(st, ast.Return):
+                a2 = ast.Return(value=ast.Name(id=tmp, ctx=ast.Load()))
+            else:
+                a2 = ast.Assign(targets=st.targets, value=ast.Name(id=tmp, ctx=ast.Load()))
+            for x in (a1, a2):
+                ast.copy_location(x, st)
+                ast.fix_missing_locations(x)
+            return [a1, a2]
         else:
             return None
         if not isinstance(val, ast.ListComp) or len(val.generators) != 1 or val.generators[0].is_async:
@@ -674,7 +694,39 @@ def _forward_pure(stmts):
     return stmts
 
 
-def _forward_temps(stmts):
+def normalise_straight_factories(tree):
+    """a function whose body is only local assignments and one final return (a factory: no branches, loops or other statements):
+    a local bound once to an object built by the construct library and read once, in the statement that directly follows its
+    binding, is written in at that place (nothing with an effect is evaluated between the binding and the use)"""
+    n = 0
+    lib = set()
+    for st in tree.body:
+        if isinstance(st, ast.ImportFrom) and st.module in ("construct", "construct.core", "construct.lib"):
+            lib |= {a.asname or a.name for a in st.names}
+    if not lib:
+        return 0
+    for fn in [f for f in ast.walk(tree) if isinstance(f, ast.FunctionDef)]:
+        body = [b for b in fn.body if not (isinstance(b, ast.Expr) and isinstance(b.value, ast.Constant))]
+        if len(body) < 2 or not isinstance(body[-1], ast.Return) or body[-1].value is None:
+            continue
+        if not all(isinstance(b, ast.Assign) and len(b.targets) == 1 and isinstance(b.targets[0], ast.Name) for b in body[:-1]):
+            continue
+        if not any(isinstance(b.value, ast.Call) for b in body[:-1]):
+            continue
+        if any(isinstance(x, (ast.Lambda, ast.GeneratorExp, ast.ListComp, ast.SetComp, ast.DictComp, ast.NamedExpr, ast.Yield, ast.YieldFrom, ast.Await)) for b in body for x in ast.walk(b)):
+            continue
+        k = len(body)
+        new = _forward_temps(list(body), any_name=lib)
+        if len(new) != k:
+            doc = [b for b in fn.body if isinstance(b, ast.Expr) and isinstance(b.value, ast.Constant)]
+            fn.body = doc[:1] + new
+            n += k - len(new)
+    if n:
+        ast.fix_missing_locations(tree)
+    return n
+
+
+def _forward_temps(stmts, any_name=False):
     """peephole: `_inlN_t = e` immediately followed by a simple statement that uses _inlN_t exactly once (and the
     name occurs nowhere else) becomes that statement with e in place of the temporary"""
     changed = True
@@ -682,8 +734,10 @@ def _forward_temps(stmts):
         changed = False
         for i in range(len(stmts) - 1):
             a, b = stmts[i], stmts[i + 1]
-            if not (isinstance(a, ast.Assign) and len(a.targets) == 1 and isinstance(a.targets[0], ast.Name) and a.targets[0].id.startswith("_inl")):
+            if not (isinstance(a, ast.Assign) and len(a.targets) == 1 and isinstance(a.targets[0], ast.Name) and (any_name or a.targets[0].id.startswith("_inl"))):
                 continue
+            if any_name and not a.targets[0].id.startswith("_inl") and not (isinstance(a.value, ast.Call) and isinstance(a.value.func, ast.Name) and a.value.func.id in any_name):
+                continue  # only objects built by the construct library are moved (building them has no effect on anything else)
             t = a.targets[0].id
             if not isinstance(b, (ast.Assign, ast.AnnAssign, ast.AugAssign, ast.Expr, ast.Return)):
                 continue
@@ -780,6 +834,8 @@ def _rename_result_temps(stmts):
     for st, _h in flat:
         if isinstance(st, ast.Assign) and len(st.targets) == 1 and isinstance(st.targets[0], ast.Name) and st.targets[0].id.startswith("_inl"):
             temps.setdefault(st.targets[0].id, []).append(st)
+        elif isinstance(st, ast.AnnAssign) and isinstance(st.target, ast.Name) and st.value is not None and st.target.id.startswith("_inl"):
+            temps.setdefault(st.target.id, []).append(st)
     for t, defs in temps.items():
         loads = [(st, n) for st, _h in flat for n in _own_exprs(st) if isinstance(n, ast.Name) and n.id == t and isinstance(n.ctx, ast.Load)]
         if not loads:
@@ -805,6 +861,28 @@ def _rename_result_temps(stmts):
                         return n
 
                 stmts = _drop_self_copies([RA().visit(st) for st in stmts])
+                return _rename_result_temps(stmts)
+            # case A': t starts as a copy of y, y itself is never read inside the expansion, and every way through the expansion ends
+            # by assigning y: t can live in y's slot throughout (y's old value is dead once t has been initialised from it)
+            y_loads = [n for st, _h in flat if st is not first for n in _own_exprs(st) if isinstance(n, ast.Name) and n.id == y and isinstance(n.ctx, ast.Load)]
+
+            def ends_assigning(sts):
+                if not sts:
+                    return False
+                last = sts[-1]
+                if isinstance(last, ast.Assign):
+                    return any(isinstance(x, ast.Name) and x.id == y and isinstance(x.ctx, ast.Store) for t_ in last.targets for x in ast.walk(t_))
+                if isinstance(last, ast.If):
+                    return bool(last.orelse) and ends_assigning(last.body) and ends_assigning(last.orelse)
+                return isinstance(last, ast.Raise)
+            if not y_loads and stmts and stmts[0] is first and ends_assigning(stmts) and not any(isinstance(st, (ast.Try, ast.With, ast.For, ast.While)) for st, _h in flat):
+                class RB(ast.NodeTransformer):
+                    def visit_Name(self, n):
+                        if n.id == t:
+                            return ast.copy_location(ast.Name(id=y, ctx=n.ctx), n)
+                        return n
+
+                stmts = _drop_self_copies(_split_tuple_assign([RB().visit(st) for st in stmts]))
                 return _rename_result_temps(stmts)
         copies = [st for st, n in loads if isinstance(st, ast.Assign) and st.value is n and len(st.targets) == 1 and isinstance(st.targets[0], ast.Name)]
         if not copies:
@@ -876,6 +954,29 @@ def _own_exprs(st):
             visit(ch, False)
 
     visit(st, True)
+    return out
+
+
+def _split_tuple_assign(stmts):
+    """`a, b = (x, y)` with side-effect-free x, y that do not read a is `a = x; b = y`"""
+    out = []
+    for st in stmts:
+        if isinstance(st, ast.Assign) and len(st.targets) == 1 and isinstance(st.targets[0], ast.Tuple) and isinstance(st.value, ast.Tuple) \
+                and len(st.targets[0].elts) == len(st.value.elts) and all(isinstance(t_, ast.Name) for t_ in st.targets[0].elts) \
+                and len({t_.id for t_ in st.targets[0].elts}) == len(st.value.elts) and all(pure(v_) and not isinstance(v_, ast.Starred) for v_ in st.value.elts):
+            tn = [t_.id for t_ in st.targets[0].elts]
+            clash = any(isinstance(x, ast.Name) and x.id in tn[:i_] for i_, v_ in enumerate(st.value.elts) for x in ast.walk(v_))
+            if not clash:
+                for t_, v_ in zip(st.targets[0].elts, st.value.elts):
+                    a_ = ast.Assign(targets=[t_], value=v_)
+                    ast.copy_location(a_, st)
+                    out.append(a_)
+                continue
+        for field in ("body", "orelse"):
+            sub = getattr(st, field, None)
+            if isinstance(st, ast.If) and isinstance(sub, list) and sub:
+                setattr(st, field, _split_tuple_assign(sub))
+        out.append(st)
     return out
 
 
@@ -1268,7 +1369,8 @@ class GenHelper:
         body = list(fn.body)
         if body and isinstance(body[0], ast.Expr) and isinstance(body[0].value, ast.Constant) and isinstance(body[0].value.value, str):
             body = body[1:]
-        self.prefix, self.loop = body[:-1], body[-1]
+        li = max(i_ for i_, s_ in enumerate(body) if isinstance(s_, (ast.While, ast.For)))
+        self.prefix, self.loop, self.suffix = body[:li], body[li], body[li + 1:]
         self.locals = {n.id for n in ast.walk(fn) if isinstance(n, ast.Name) and isinstance(n.ctx, ast.Store)}
         self.free = {n.id for n in ast.walk(ast.Module(body=body, type_ignores=[])) if isinstance(n, ast.Name) and isinstance(n.ctx, ast.Load)} \
             - self.locals - set(allp)
@@ -1283,7 +1385,15 @@ def _gen_candidate(fn, cls):
     body = list(fn.body)
     if body and isinstance(body[0], ast.Expr) and isinstance(body[0].value, ast.Constant) and isinstance(body[0].value.value, str):
         body = body[1:]
+    # statements after the loop (no yield, no return, no loop): they run when the loop ends normally; a bare `return` inside the
+    # loop skips them - which is what the loop's `else` clause expresses, provided the loop has no `break` of its own
+    suffix = []
+    while len(body) > 1 and isinstance(body[-1], (ast.Raise, ast.Assign, ast.AugAssign, ast.Expr, ast.Pass)) \
+            and not any(isinstance(x, (ast.Yield, ast.YieldFrom)) for x in ast.walk(body[-1])):
+        suffix.insert(0, body.pop())
     if not body or not isinstance(body[-1], (ast.While, ast.For)) or body[-1].orelse:
+        return None
+    if suffix and any(isinstance(x, ast.Return) for x in ast.walk(body[-1])) and _loop_level_jumps_kind(body[-1].body, (ast.Break,)):
         return None
     if not all(isinstance(s_, (ast.Assign, ast.AnnAssign, ast.AugAssign, ast.Expr, ast.Pass)) for s_ in body[:-1]):
         return None
@@ -1418,8 +1528,13 @@ class GenInliner:
                 out.append(s_)
             return out
 
+        had_return = any(isinstance(x, ast.Return) for x in ast.walk(loop))
         loop.body = place(loop.body)
-        out = pre + prefix + [loop]
+        suffix = [sub.visit(_clone(s_)) for s_ in h.suffix]
+        if suffix and had_return:
+            loop.orelse = suffix
+            suffix = []
+        out = pre + prefix + [loop] + suffix
         out = _plain_names(out, self._local_names, h)
         for n in out:
             for x in ast.walk(n):
@@ -1764,6 +1879,17 @@ def normalise_table_unroll(tree):
         elif isinstance(st, ast.AnnAssign) and isinstance(st.target, ast.Name) and isinstance(st.value, (ast.Tuple, ast.List)) and stores.get(st.target.id) == 1:
             mod_tables[st.target.id] = st.value
 
+    mod_dicts = {}
+    for st in tree.body:
+        if isinstance(st, ast.Assign) and len(st.targets) == 1 and isinstance(st.targets[0], ast.Name) and isinstance(st.value, ast.Dict) and stores.get(st.targets[0].id) == 1 \
+                and st.value.keys and all(isinstance(k_, ast.Constant) for k_ in st.value.keys) and len({repr(k_.value) for k_ in st.value.keys}) == len(st.value.keys):
+            nm_ = st.targets[0].id
+            mutated = any((isinstance(x, ast.Subscript) and isinstance(x.value, ast.Name) and x.value.id == nm_ and not isinstance(x.ctx, ast.Load))
+                          or (isinstance(x, ast.Call) and isinstance(x.func, ast.Attribute) and isinstance(x.func.value, ast.Name) and x.func.value.id == nm_
+                              and x.func.attr in ("update", "pop", "popitem", "clear", "setdefault")) for x in ast.walk(tree))
+            if not mutated:
+                mod_dicts[nm_] = st.value
+
     def simple(e):
         if isinstance(e, ast.Constant):
             return True
@@ -1835,6 +1961,11 @@ def normalise_table_unroll(tree):
             if len(v.generators) == 1 and not v.generators[0].ifs and not v.generators[0].is_async:
                 g = v.generators[0]
                 tab = g.iter if isinstance(g.iter, (ast.Tuple, ast.List)) else (mod_tables.get(g.iter.id) if isinstance(g.iter, ast.Name) else None)
+                if tab is None and isinstance(g.iter, ast.Call) and isinstance(g.iter.func, ast.Attribute) and g.iter.func.attr == "items" and not g.iter.args and not g.iter.keywords \
+                        and isinstance(g.iter.func.value, ast.Name) and g.iter.func.value.id in mod_dicts:
+                    # NAME.items() of a module-level literal mapping with distinct constant keys: its (key, value) rows in order
+                    dd = mod_dicts[g.iter.func.value.id]
+                    tab = ast.Tuple(elts=[ast.Tuple(elts=[k_, v_], ctx=ast.Load()) for k_, v_ in zip(dd.keys, dd.values)], ctx=ast.Load())
                 rows = rows_of(tab, g.target) if tab is not None else None
                 if rows is not None:
                     if isinstance(v, ast.DictComp):
@@ -1846,6 +1977,44 @@ def normalise_table_unroll(tree):
                     st.value = ast.copy_location(new_v, v)
                     ast.fix_missing_locations(st)
                     n += 1
+    # module level: comprehensions nested inside a declaration (`X = Struct(.., Switch(k, {K(a): b for a, b in TABLE}))`)
+    class MC(ast.NodeTransformer):
+        def __init__(self):
+            self.n = 0
+
+        def visit_Lambda(self, node):
+            return node
+
+        def _rows(self, node):
+            if len(node.generators) != 1 or node.generators[0].ifs or node.generators[0].is_async:
+                return None
+            g = node.generators[0]
+            tab = g.iter if isinstance(g.iter, (ast.Tuple, ast.List)) else (mod_tables.get(g.iter.id) if isinstance(g.iter, ast.Name) else None)
+            return rows_of(tab, g.target) if tab is not None else None
+
+        def visit_DictComp(self, node):
+            self.generic_visit(node)
+            rows = self._rows(node)
+            if rows is None:
+                return node
+            self.n += 1
+            return ast.copy_location(ast.Dict(keys=[subst(node.key, r) for r in rows], values=[subst(node.value, r) for r in rows]), node)
+
+        def visit_ListComp(self, node):
+            self.generic_visit(node)
+            rows = self._rows(node)
+            if rows is None:
+                return node
+            self.n += 1
+            return ast.copy_location(ast.List(elts=[subst(node.elt, r) for r in rows], ctx=ast.Load()), node)
+
+    for st in tree.body:
+        if isinstance(st, (ast.Assign, ast.AnnAssign)) and st.value is not None and not isinstance(st.value, (ast.ListComp, ast.SetComp, ast.DictComp)):
+            mc = MC()
+            st.value = mc.visit(st.value)
+            if mc.n:
+                ast.fix_missing_locations(st)
+                n += mc.n
     for fn in fns:
         own = [x for x in ast.walk(fn)]
         # comprehensions
@@ -2511,8 +2680,26 @@ def normalise_local_procs(tree, known):
             calls = [c for st in outer.body if st is not g for c in ast.walk(st) if isinstance(c, ast.Call) and isinstance(c.func, ast.Name) and c.func.id == g.name]
             if not uses or len(uses) != len(calls) or any(not isinstance(x.ctx, ast.Load) for x in uses):
                 continue
-            if any(isinstance(x, (ast.Lambda, ast.FunctionDef)) and any(isinstance(y, ast.Name) and y.id == g.name for y in ast.walk(x)) for st in outer.body if st is not g for x in ast.walk(st)):
-                continue  # used from another closure
+            closures = [x for st in outer.body if st is not g for x in ast.walk(st) if isinstance(x, (ast.Lambda, ast.FunctionDef))
+                        and any(isinstance(y, ast.Name) and y.id == g.name for y in ast.walk(x))]
+            if closures:
+                # used from another closure: fine when that is a sibling `def` of the same function which binds none of the names g
+                # reads from outside itself (they then mean the same thing inside the sibling)
+                g_own = {x.id for x in ast.walk(g) if isinstance(x, ast.Name) and isinstance(x.ctx, (ast.Store, ast.Del))} | {a.arg for a in g.args.posonlyargs + g.args.args + g.args.kwonlyargs}
+                g_free = {x.id for x in ast.walk(g) if isinstance(x, ast.Name) and isinstance(x.ctx, ast.Load)} - g_own
+                sib_ok = True
+                for c_ in closures:
+                    if not (isinstance(c_, ast.FunctionDef) and any(c_ is st for st in outer.body)) or c_.decorator_list:
+                        sib_ok = False
+                        break
+                    c_own = {x.id for x in ast.walk(c_) if isinstance(x, ast.Name) and isinstance(x.ctx, (ast.Store, ast.Del))} \
+                        | {a.arg for x in ast.walk(c_) if isinstance(x, (ast.FunctionDef, ast.Lambda)) for a in x.args.posonlyargs + x.args.args + x.args.kwonlyargs}
+                    if (g_free & c_own) or any(isinstance(x, (ast.Nonlocal, ast.Global)) for x in ast.walk(c_)) \
+                            or any(isinstance(x, (ast.Lambda, ast.FunctionDef)) and x is not c_ and any(isinstance(y, ast.Name) and y.id == g.name for y in ast.walk(x)) for x in ast.walk(c_)):
+                        sib_ok = False
+                        break
+                if not sib_ok:
+                    continue
             if any(isinstance(x, (ast.Nonlocal, ast.Global, ast.Yield, ast.YieldFrom, ast.Await)) for x in ast.walk(g)):
                 continue
             g_locals = {x.id for x in ast.walk(g) if isinstance(x, ast.Name) and isinstance(x.ctx, (ast.Store, ast.Del))} | {a.arg for a in g.args.posonlyargs + g.args.args + g.args.kwonlyargs}
@@ -2591,6 +2778,29 @@ def normalise_chain_loops(tree):
                                 loops.append(lp)
                             k = stmts.index(st)
                             stmts[k:k + 1] = loops
+                        elif isinstance(it, ast.GeneratorExp) and (len(it.generators) > 1 or it.generators[0].ifs) and not any(g_.is_async for g_ in it.generators) \
+                                and not _loop_level_jumps_kind(st.body, (ast.Break,)) \
+                                and not any(isinstance(x, (ast.NamedExpr, ast.Yield, ast.YieldFrom, ast.Await)) for x in ast.walk(it)):
+                            # several for / if clauses: the nested loops they abbreviate (`continue` in BODY goes on with the next element
+                            # either way; `break` would not, hence excluded)
+                            counter[0] += 1
+                            gen_names = {x.id for g_ in it.generators for x in ast.walk(g_.target) if isinstance(x, ast.Name)}
+                            same = isinstance(it.elt, ast.Name) and isinstance(st.target, ast.Name) and it.elt.id == st.target.id
+                            outside = {x.id for x in ast.walk(fn) if isinstance(x, ast.Name) and not any(x is y for y in ast.walk(it))}
+                            ren = {nm: f"_gv{counter[0]}_{nm}" for nm in gen_names if nm in outside and not (same and nm == st.target.id)}
+                            r = _Rename2(ren)
+                            inner = ([] if same and st.target.id not in ren else [ast.Assign(targets=[st.target], value=r.visit(_clone(it.elt)))]) + st.body
+                            for g_ in reversed(it.generators):
+                                for c_ in reversed(g_.ifs):
+                                    inner = [ast.If(test=r.visit(_clone(c_)), body=inner, orelse=[])]
+                                inner = [ast.For(target=r.visit(_clone(g_.target)), iter=(r.visit(_clone(g_.iter)) if g_ is not it.generators[0] else g_.iter), body=inner, orelse=[])]
+                            lp = inner[0]
+                            for x in ast.walk(lp):
+                                if not hasattr(x, "lineno") and isinstance(x, (ast.stmt, ast.expr)):
+                                    ast.copy_location(x, st)
+                            ast.copy_location(lp, st)
+                            ast.fix_missing_locations(lp)
+                            stmts[stmts.index(st)] = lp
                         elif isinstance(it, ast.GeneratorExp) and len(it.generators) == 1 and not it.generators[0].ifs and not it.generators[0].is_async:
                             g = it.generators[0]
                             counter[0] += 1
@@ -2768,13 +2978,806 @@ def normalise_local_lambdas(tree, known):
 
 
 # ------------------------------------------------------------------------------------------ entry point
+def normalise_new_consts(tree, known):
+    """a module-level `NAME = V` that is new with respect to the pinned inventory, bound exactly once, with V a literal constant or
+    a tuple display of constants / plain (dotted) names: every read of NAME in this module is V written out (tuples and constants
+    are immutable, the names inside are read at the same places as long as they are module-level names bound before)"""
+    stores = {}
+    for x in ast.walk(tree):
+        if isinstance(x, ast.Name) and isinstance(x.ctx, (ast.Store, ast.Del)):
+            stores[x.id] = stores.get(x.id, 0) + 1
+        elif isinstance(x, (ast.FunctionDef, ast.AsyncFunctionDef, ast.ClassDef)):
+            stores[x.name] = stores.get(x.name, 0) + 1
+        elif isinstance(x, ast.arg):
+            stores[x.arg] = stores.get(x.arg, 0) + 1
+        elif isinstance(x, (ast.Import, ast.ImportFrom)):
+            for a in x.names:
+                nm_ = (a.asname or a.name).split(".")[0]
+                stores[nm_] = stores.get(nm_, 0) + 1
+        elif isinstance(x, ast.ExceptHandler) and x.name:
+            stores[x.name] = stores.get(x.name, 0) + 1
+        elif isinstance(x, (ast.Global, ast.Nonlocal)):
+            for nm_ in x.names:
+                stores[nm_] = stores.get(nm_, 0) + 2
+
+    def const(e):
+        return isinstance(e, ast.Constant) or (isinstance(e, ast.UnaryOp) and isinstance(e.op, (ast.USub, ast.UAdd)) and isinstance(e.operand, ast.Constant))
+
+    def simple(e):
+        if const(e):
+            return True
+        while isinstance(e, ast.Attribute):
+            e = e.value
+        return isinstance(e, ast.Name) and stores.get(e.id) == 1 and e.id in bound_before
+
+    n = 0
+    bound_before = set()
+    for st in tree.body:
+        for x in ast.walk(st) if not isinstance(st, (ast.FunctionDef, ast.AsyncFunctionDef, ast.ClassDef)) else ():
+            if isinstance(x, ast.Name) and isinstance(x.ctx, ast.Store):
+                pass
+        tgt = None
+        if isinstance(st, ast.Assign) and len(st.targets) == 1 and isinstance(st.targets[0], ast.Name):
+            tgt, val = st.targets[0].id, st.value
+        elif isinstance(st, ast.AnnAssign) and isinstance(st.target, ast.Name) and st.value is not None:
+            tgt, val = st.target.id, st.value
+        if tgt is not None and ("=" + tgt) not in known and stores.get(tgt) == 1 and tgt.startswith("_") \
+                and (const(val) or (isinstance(val, ast.Tuple) and 1 <= len(val.elts) <= 8 and all(simple(e) for e in val.elts))):
+            class R(ast.NodeTransformer):
+                def __init__(self):
+                    self.n = 0
+
+                def visit_Name(self, node):
+                    if node.id == tgt and isinstance(node.ctx, ast.Load):
+                        self.n += 1
+                        return ast.copy_location(_clone(val), node)
+                    return node
+            r = R()
+            for other in tree.body:
+                if other is not st:
+                    r.visit(other)
+            n += r.n
+        elif tgt is not None and ("=" + tgt) not in known and stores.get(tgt) == 1 and tgt.startswith("_") and isinstance(val, ast.Dict) and 1 <= len(val.keys) <= 8 \
+                and all(k_ is not None and simple(k_) for k_ in val.keys) and not any(
+                    isinstance(x, ast.Call) and isinstance(x.func, ast.Attribute) and isinstance(x.func.value, ast.Name) and x.func.value.id == tgt
+                    and x.func.attr in ("update", "pop", "popitem", "clear", "setdefault", "__setitem__", "__delitem__") for x in ast.walk(tree)) \
+                and not any(isinstance(x, ast.Subscript) and isinstance(x.value, ast.Name) and x.value.id == tgt and not isinstance(x.ctx, ast.Load) for x in ast.walk(tree)):
+            # a new constant mapping: `x in NAME` asks whether x is one of its keys
+            keys_ = ast.Tuple(elts=[_clone(k_) for k_ in val.keys], ctx=ast.Load())
+
+            class RD(ast.NodeTransformer):
+                def __init__(self):
+                    self.n = 0
+
+                def visit_Compare(self, node):
+                    self.generic_visit(node)
+                    if len(node.ops) == 1 and isinstance(node.ops[0], (ast.In, ast.NotIn)) and isinstance(node.comparators[0], ast.Name) and node.comparators[0].id == tgt:
+                        node.comparators = [ast.copy_location(_clone(keys_), node.comparators[0])]
+                        self.n += 1
+                    return node
+            rd = RD()
+            for other in tree.body:
+                if other is not st:
+                    rd.visit(other)
+            n += rd.n
+        # names available to later statements
+        if isinstance(st, (ast.FunctionDef, ast.AsyncFunctionDef, ast.ClassDef)):
+            bound_before.add(st.name)
+        elif isinstance(st, (ast.Import, ast.ImportFrom)):
+            bound_before |= {(a.asname or a.name).split(".")[0] for a in st.names}
+        else:
+            bound_before |= {x.id for x in ast.walk(st) if isinstance(x, ast.Name) and isinstance(x.ctx, ast.Store)}
+    if n:
+        ast.fix_missing_locations(tree)
+    return n
+
+
+def normalise_dict_build(tree, known=()):
+    """`D = {..}` directly followed by `D.update({..})` / `D.update(dict.fromkeys((k1, k2), V))` / `D[k] = v` (keys plain names or
+    constants, V a plain name or constant) is the one display with those entries appended (a later equal key replaces the value and
+    keeps the first position in both spellings).  When the very next statement is the only other mention of D in its scope, the
+    display is written there in place of D."""
+    n = 0
+
+    def simple(e):
+        if isinstance(e, ast.Constant):
+            return True
+        while isinstance(e, ast.Attribute):
+            e = e.value
+        return isinstance(e, ast.Name)
+
+    scopes = [(tree, tree.body, True)] + [(f, f.body, False) for f in ast.walk(tree) if isinstance(f, (ast.FunctionDef, ast.AsyncFunctionDef))]
+    for scope, body, is_mod in scopes:
+        i = 0
+        while i < len(body):
+            st = body[i]
+            i += 1
+            if not (isinstance(st, ast.Assign) and len(st.targets) == 1 and isinstance(st.targets[0], ast.Name) and isinstance(st.value, ast.Dict)
+                    and all(k is not None for k in st.value.keys)):
+                continue
+            d = st.targets[0].id
+            if is_mod and ("=" + d) in known:
+                continue
+            j = i
+            merged = 0
+            while j < len(body):
+                nx = body[j]
+                add = None
+                if isinstance(nx, ast.Expr) and isinstance(nx.value, ast.Call) and isinstance(nx.value.func, ast.Attribute) and nx.value.func.attr == "update" \
+                        and isinstance(nx.value.func.value, ast.Name) and nx.value.func.value.id == d and len(nx.value.args) == 1 and not nx.value.keywords:
+                    a = nx.value.args[0]
+                    if isinstance(a, ast.Dict) and all(k is not None for k in a.keys) and not any(isinstance(x, ast.Name) and x.id == d for x in ast.walk(a)):
+                        add = list(zip(a.keys, a.values))
+                    elif isinstance(a, ast.Call) and isinstance(a.func, ast.Attribute) and a.func.attr == "fromkeys" and isinstance(a.func.value, ast.Name) and a.func.value.id == "dict" \
+                            and len(a.args) == 2 and not a.keywords and isinstance(a.args[0], (ast.Tuple, ast.List)) and all(simple(k) for k in a.args[0].elts) and simple(a.args[1]):
+                        add = [(k, _clone(a.args[1])) for k in a.args[0].elts]
+                elif isinstance(nx, ast.Assign) and len(nx.targets) == 1 and isinstance(nx.targets[0], ast.Subscript) and isinstance(nx.targets[0].value, ast.Name) \
+                        and nx.targets[0].value.id == d and simple(nx.targets[0].slice) and not any(isinstance(x, ast.Name) and x.id == d for x in ast.walk(nx.value)):
+                    add = [(nx.targets[0].slice, nx.value)]
+                if add is None:
+                    break
+                for k, v in add:
+                    st.value.keys.append(k)
+                    st.value.values.append(v)
+                del body[j]
+                merged += 1
+            n += merged
+            # single use in the next statement
+            if i < len(body) and not isinstance(body[i], (ast.FunctionDef, ast.AsyncFunctionDef, ast.ClassDef, ast.For, ast.While, ast.If, ast.Try, ast.With)):
+                uses = [x for x in ast.walk(scope) if isinstance(x, ast.Name) and x.id == d]
+                here = [x for x in ast.walk(body[i]) if isinstance(x, ast.Name) and x.id == d and isinstance(x.ctx, ast.Load)]
+                inside_fn = any(isinstance(y, (ast.Lambda, ast.FunctionDef, ast.GeneratorExp, ast.ListComp, ast.SetComp, ast.DictComp)) and any(z is here[0] for z in ast.walk(y))
+                                for y in ast.walk(body[i])) if here else True
+                if len(here) == 1 and len(uses) == 2 and not inside_fn and (not is_mod or merged or not d.startswith("__")):
+                    tgt = here[0]
+
+                    class R(ast.NodeTransformer):
+                        def visit_Name(self, node):
+                            return ast.copy_location(st.value, node) if node is tgt else node
+                    body[i] = R().visit(body[i])
+                    body.remove(st)
+                    i -= 1
+                    n += 1
+        if not body:
+            body.append(ast.Pass())
+    if n:
+        ast.fix_missing_locations(tree)
+    return n
+
+
+def normalise_record_consts(tree, known):
+    """a new private `class R(NamedTuple)` with plain fields and one-expression methods, and new module-level constants
+    `X = R(c0, k=c1, ..)` built from constant expressions: `X.field` is that expression, `X.method(a)` is the method's expression with
+    the fields and the (side-effect free) arguments written in; a local bound once to X (`line = X`) stands for X."""
+    classes = {}
+    for st in tree.body:
+        if isinstance(st, ast.ClassDef) and st.name not in known and st.name.startswith("_") and len(st.bases) == 1 and not st.decorator_list and not st.keywords:
+            b = st.bases[0]
+            if not ((isinstance(b, ast.Name) and b.id == "NamedTuple") or (isinstance(b, ast.Attribute) and b.attr == "NamedTuple")):
+                continue
+            fields, methods, ok = [], {}, True
+            for m in st.body:
+                if isinstance(m, ast.AnnAssign) and isinstance(m.target, ast.Name):
+                    fields.append((m.target.id, m.value))
+                elif isinstance(m, ast.FunctionDef) and not m.decorator_list and not m.name.startswith("__"):
+                    body = [x for x in m.body if not (isinstance(x, ast.Expr) and isinstance(x.value, ast.Constant))]
+                    a = m.args
+                    if len(body) == 1 and isinstance(body[0], ast.Return) and body[0].value is not None and a.args and not (a.vararg or a.kwarg or a.kwonlyargs or a.defaults or a.posonlyargs) \
+                            and not any(isinstance(x, (ast.Lambda, ast.NamedExpr, ast.Yield, ast.YieldFrom, ast.Await, ast.GeneratorExp, ast.ListComp, ast.SetComp, ast.DictComp)) for x in ast.walk(body[0])):
+                        methods[m.name] = (m, body[0].value)
+                    else:
+                        ok = False
+                elif isinstance(m, ast.Pass) or (isinstance(m, ast.Expr) and isinstance(m.value, ast.Constant)):
+                    pass
+                else:
+                    ok = False
+            if ok and fields:
+                classes[st.name] = (fields, methods)
+    if not classes:
+        return 0
+    stores = {}
+    for x in ast.walk(tree):
+        if isinstance(x, ast.Name) and isinstance(x.ctx, (ast.Store, ast.Del)):
+            stores[x.id] = stores.get(x.id, 0) + 1
+
+    def const_expr(e):
+        return all(isinstance(x, (ast.Constant, ast.BinOp, ast.UnaryOp, ast.operator, ast.unaryop, ast.Load, ast.Tuple)) for x in ast.walk(e))
+
+    insts = {}
+    for st in tree.body:
+        if isinstance(st, ast.Assign) and len(st.targets) == 1 and isinstance(st.targets[0], ast.Name) and isinstance(st.value, ast.Call) and isinstance(st.value.func, ast.Name) \
+                and st.value.func.id in classes and ("=" + st.targets[0].id) not in known and stores.get(st.targets[0].id) == 1:
+            fields, methods = classes[st.value.func.id]
+            c = st.value
+            if any(isinstance(a, ast.Starred) for a in c.args) or any(k.arg is None for k in c.keywords) or len(c.args) > len(fields):
+                continue
+            vals = dict(zip([f for f, _ in fields], c.args))
+            bad = False
+            for k in c.keywords:
+                if k.arg in vals or k.arg not in dict(fields):
+                    bad = True
+                vals[k.arg] = k.value
+            for f, d in fields:
+                if f not in vals:
+                    if d is None:
+                        bad = True
+                    else:
+                        vals[f] = d
+            if bad or not all(const_expr(v) for v in vals.values()):
+                continue
+            insts[st.targets[0].id] = (vals, methods)
+    if not insts:
+        return 0
+    n = [0]
+    for fn in [f for f in ast.walk(tree) if isinstance(f, (ast.FunctionDef, ast.AsyncFunctionDef))]:
+        # local aliases bound once to an instance
+        alias = {}
+        for a in ast.walk(fn):
+            if isinstance(a, ast.Assign) and len(a.targets) == 1 and isinstance(a.targets[0], ast.Name) and isinstance(a.value, ast.Name) and a.value.id in insts:
+                nm = a.targets[0].id
+                n_st = sum(1 for x in ast.walk(fn) if isinstance(x, ast.Name) and x.id == nm and isinstance(x.ctx, (ast.Store, ast.Del)))
+                if n_st == 1 and nm not in {p_.arg for p_ in fn.args.posonlyargs + fn.args.args + fn.args.kwonlyargs} and a in fn.body:
+                    alias[nm] = a.value.id
+        params = {p_.arg for p_ in fn.args.posonlyargs + fn.args.args + fn.args.kwonlyargs}
+        local_st = {x.id for x in ast.walk(fn) if isinstance(x, ast.Name) and isinstance(x.ctx, (ast.Store, ast.Del))} | params
+
+        def inst_of(e):
+            if isinstance(e, ast.Name):
+                if e.id in alias:
+                    return alias[e.id]
+                if e.id in insts and e.id not in local_st:
+                    return e.id
+            return None
+
+        class R(ast.NodeTransformer):
+            def visit_Call(self, node):
+                self.generic_visit(node)
+                f = node.func
+                if isinstance(f, ast.Attribute) and inst_of(f.value) is not None:
+                    vals, methods = insts[inst_of(f.value)]
+                    if f.attr in methods and not node.keywords and not any(isinstance(a, ast.Starred) for a in node.args) and all(pure(a) for a in node.args):
+                        m, expr = methods[f.attr]
+                        ps = [p_.arg for p_ in m.args.args]
+                        if len(node.args) == len(ps) - 1:
+                            bind = dict(zip(ps[1:], node.args))
+                            selfn = ps[0]
+
+                            class S(ast.NodeTransformer):
+                                def visit_Attribute(self, nd):
+                                    if isinstance(nd.value, ast.Name) and nd.value.id == selfn and nd.attr in vals:
+                                        return ast.copy_location(_clone(vals[nd.attr]), nd)
+                                    self.generic_visit(nd)
+                                    return nd
+
+                                def visit_Name(self, nd):
+                                    if nd.id in bind and isinstance(nd.ctx, ast.Load):
+                                        return ast.copy_location(_clone(bind[nd.id]), nd)
+                                    return nd
+                            e2 = S().visit(_clone(expr))
+                            if not any(isinstance(x, ast.Name) and x.id == selfn for x in ast.walk(e2)):
+                                n[0] += 1
+                                return ast.copy_location(e2, node)
+                return node
+
+            def visit_Attribute(self, node):
+                self.generic_visit(node)
+                if isinstance(node.ctx, ast.Load) and inst_of(node.value) is not None:
+                    vals, methods = insts[inst_of(node.value)]
+                    if node.attr in vals:
+                        n[0] += 1
+                        return ast.copy_location(_clone(vals[node.attr]), node)
+                return node
+
+        before = n[0]
+        fn.body = [R().visit(b) for b in fn.body]
+        if n[0] > before:
+            # aliases no longer read are dropped
+            for nm in list(alias):
+                if not any(isinstance(x, ast.Name) and x.id == nm and isinstance(x.ctx, ast.Load) for x in ast.walk(fn)):
+                    fn.body = [b for b in fn.body if not (isinstance(b, ast.Assign) and len(b.targets) == 1 and isinstance(b.targets[0], ast.Name) and b.targets[0].id == nm)] or [ast.Pass()]
+    if n[0]:
+        ast.fix_missing_locations(tree)
+    return n[0]
+
+
+def normalise_local_records(tree, known):
+    """inside a function: `w = R(a, k=b, ..)` with R a new private NamedTuple class with plain fields, side-effect-free arguments
+    over names that are bound only once in the function, w bound once and only ever read as `w.field`: each `w.field` is the
+    argument given for that field (building the tuple has no effect of its own)"""
+    classes = {}
+    for st in tree.body:
+        if isinstance(st, ast.ClassDef) and st.name not in known and st.name.startswith("_") and len(st.bases) == 1 and not st.decorator_list and not st.keywords:
+            b = st.bases[0]
+            if not ((isinstance(b, ast.Name) and b.id == "NamedTuple") or (isinstance(b, ast.Attribute) and b.attr == "NamedTuple")):
+                continue
+            fields, ok = [], True
+            for m in st.body:
+                if isinstance(m, ast.AnnAssign) and isinstance(m.target, ast.Name):
+                    fields.append((m.target.id, m.value))
+                elif isinstance(m, ast.FunctionDef) and m.name not in ("__new__", "__init__", "__getattribute__", "__getattr__"):
+                    pass
+                elif isinstance(m, ast.Pass) or (isinstance(m, ast.Expr) and isinstance(m.value, ast.Constant)):
+                    pass
+                else:
+                    ok = False
+            if ok and fields:
+                classes[st.name] = fields
+    if not classes:
+        return 0
+    n = 0
+    for fn in [f for f in ast.walk(tree) if isinstance(f, (ast.FunctionDef, ast.AsyncFunctionDef))]:
+        nstores = {}
+        for x in ast.walk(fn):
+            if isinstance(x, ast.Name) and isinstance(x.ctx, (ast.Store, ast.Del)):
+                nstores[x.id] = nstores.get(x.id, 0) + 1
+        params = {a.arg for a in fn.args.posonlyargs + fn.args.args + fn.args.kwonlyargs}
+        for a in [x for x in fn.body if isinstance(x, ast.Assign)]:
+            if not (len(a.targets) == 1 and isinstance(a.targets[0], ast.Name) and isinstance(a.value, ast.Call) and isinstance(a.value.func, ast.Name) and a.value.func.id in classes):
+                continue
+            w, c, fields = a.targets[0].id, a.value, classes[a.value.func.id]
+            if nstores.get(w) != 1 or w in params or any(isinstance(x, ast.Starred) for x in c.args) or any(k.arg is None for k in c.keywords) or len(c.args) > len(fields):
+                continue
+            vals = dict(zip([f for f, _ in fields], c.args))
+            bad = False
+            for k in c.keywords:
+                if k.arg in vals or k.arg not in dict(fields):
+                    bad = True
+                vals[k.arg] = k.value
+            for f, d in fields:
+                if f not in vals:
+                    if d is None or not isinstance(d, ast.Constant):
+                        bad = True
+                    else:
+                        vals[f] = d
+            if bad or not all(pure(v) for v in vals.values()):
+                continue
+            arg_names = {x.id for v in vals.values() for x in ast.walk(v) if isinstance(x, ast.Name)}
+            if any((nstores.get(nm, 0) + (1 if nm in params else 0)) > 1 for nm in arg_names) or any(isinstance(x, (ast.Attribute, ast.Subscript)) and isinstance(x.ctx, ast.Store) for x in ast.walk(fn)):
+                continue
+            loads = [x for x in ast.walk(fn) if isinstance(x, ast.Name) and x.id == w and isinstance(x.ctx, ast.Load)]
+            attrs = [x for x in ast.walk(fn) if isinstance(x, ast.Attribute) and isinstance(x.value, ast.Name) and x.value.id == w and isinstance(x.ctx, ast.Load) and x.attr in vals]
+            if not loads or len(loads) != len(attrs):
+                continue
+            if any(isinstance(y, (ast.Lambda, ast.FunctionDef)) and y is not fn and any(z is x for z in ast.walk(y)) for x in loads for y in ast.walk(fn)):
+                continue
+
+            class R(ast.NodeTransformer):
+                def visit_Attribute(self, node):
+                    if isinstance(node.value, ast.Name) and node.value.id == w and isinstance(node.ctx, ast.Load) and node.attr in vals:
+                        return ast.copy_location(_clone(vals[node.attr]), node)
+                    self.generic_visit(node)
+                    return node
+            fn.body = [R().visit(b) for b in fn.body if b is not a] or [ast.Pass()]
+            n += 1
+    if n:
+        ast.fix_missing_locations(tree)
+    return n
+
+
+def normalise_jump_thread(tree):
+    """an if/elif/else (or try/except) whose branches set a flag-like local v to a constant or to a private sentinel, directly
+    followed by `if <test on v>: X [else: Y]` (test: v is None / v is not None / v / not v / v is [not] SENTINEL): the second
+    decision is taken at the end of each branch; where v's value is known it is the branch taken outright.  Same statements
+    executed in the same order on every path.  A sentinel is a module-level `NAME = object()` bound once that is only ever
+    assigned to plain locals, returned, or compared with is / is not: the result of a call is then never that object."""
+    n = [0]
+    # private sentinels
+    sentinels = set()
+    for st in tree.body:
+        if isinstance(st, ast.Assign) and len(st.targets) == 1 and isinstance(st.targets[0], ast.Name) and isinstance(st.value, ast.Call) \
+                and isinstance(st.value.func, ast.Name) and st.value.func.id == "object" and not st.value.args and not st.value.keywords:
+            nm = st.targets[0].id
+            ok = nm.startswith("_")
+            for x in ast.walk(tree):
+                if isinstance(x, ast.Name) and x.id == nm and x is not st.targets[0]:
+                    par = getattr(x, "_jt_parent", None)
+                    ok = ok and isinstance(x.ctx, ast.Load)
+            sentinels.add(nm) if ok else None
+    if sentinels:
+        for node in ast.walk(tree):
+            for ch in ast.iter_child_nodes(node):
+                ch._jt_parent = node
+        for nm in list(sentinels):
+            for x in ast.walk(tree):
+                if isinstance(x, ast.Name) and x.id == nm and isinstance(x.ctx, ast.Load):
+                    par = getattr(x, "_jt_parent", None)
+                    fine = (isinstance(par, ast.Assign) and par.value is x and all(isinstance(t_, ast.Name) for t_ in par.targets)) \
+                        or (isinstance(par, ast.Compare) and len(par.ops) == 1 and isinstance(par.ops[0], (ast.Is, ast.IsNot))) \
+                        or (isinstance(par, ast.Return) and par.value is x)
+                    if not fine:
+                        sentinels.discard(nm)
+        for node in ast.walk(tree):
+            if hasattr(node, "_jt_parent"):
+                del node._jt_parent
+        # a function that still returns the sentinel makes call results suspect
+        for nm in list(sentinels):
+            if any(isinstance(r, ast.Return) and isinstance(r.value, ast.Name) and r.value.id == nm for r in ast.walk(tree)):
+                sentinels.discard(nm)
+
+    def test_var(t):
+        neg = False
+        while isinstance(t, ast.UnaryOp) and isinstance(t.op, ast.Not):
+            t, neg = t.operand, not neg
+        if isinstance(t, ast.Name):
+            return t.id, ("truthy", None), neg
+        if isinstance(t, ast.Compare) and len(t.ops) == 1 and isinstance(t.left, ast.Name) and isinstance(t.ops[0], (ast.Is, ast.IsNot)):
+            c = t.comparators[0]
+            if isinstance(c, ast.Constant) and c.value is None:
+                return t.left.id, ("none", None), neg != isinstance(t.ops[0], ast.IsNot)
+            if isinstance(c, ast.Name) and c.id in sentinels:
+                return t.left.id, ("sentinel", c.id), neg != isinstance(t.ops[0], ast.IsNot)
+        return None
+
+    def small(sts):
+        return len(sts) <= 3 and not any(isinstance(x, (ast.For, ast.While, ast.FunctionDef, ast.AsyncFunctionDef, ast.ClassDef, ast.Try, ast.With, ast.Lambda)) for st in sts for x in ast.walk(st))
+
+    def leaves(sts, out, look=None):
+        """(list to append to, statements in which v was last bound)"""
+        last = sts[-1] if sts else None
+        if isinstance(last, ast.If) and last.orelse:
+            leaves(last.body, out)
+            leaves(last.orelse, out)
+        elif isinstance(last, ast.Try) and not last.finalbody and last.handlers:
+            for h in last.handlers:
+                leaves(h.body, out)
+            if last.orelse:
+                leaves(last.orelse, out)
+            else:
+                out.append((last, last.body))  # normal completion of the body: a new else clause
+        else:
+            out.append((sts, look if look is not None else sts))
+
+    def known(leaf, v):
+        """('jump',) | ('const', value) | ('sentinel', name) | ('call',) | None for the last binding of v in the leaf"""
+        if leaf and isinstance(leaf[-1], (ast.Break, ast.Continue, ast.Return, ast.Raise)):
+            return ("jump",)
+        for st in reversed(leaf):
+            if not isinstance(st, (ast.Assign, ast.AugAssign, ast.AnnAssign, ast.Expr, ast.Pass)):
+                return None
+            stores = [x for x in ast.walk(st) if isinstance(x, ast.Name) and x.id == v and isinstance(x.ctx, (ast.Store, ast.Del))]
+            if not stores:
+                continue
+            if isinstance(st, ast.Assign) and len(st.targets) == 1 and isinstance(st.targets[0], ast.Name):
+                if isinstance(st.value, ast.Constant):
+                    return ("const", st.value.value)
+                if isinstance(st.value, ast.Name) and st.value.id in sentinels:
+                    return ("sentinel", st.value.id)
+                if isinstance(st.value, ast.Call):
+                    return ("call",)
+            return None
+        return None
+
+    def decide(k, kind, neg):
+        """truth of the test for a known binding, or None"""
+        what, arg = kind
+        truth = None
+        if k[0] == "const":
+            if what == "none":
+                truth = k[1] is None
+            elif what == "truthy":
+                truth = bool(k[1])
+            elif what == "sentinel":
+                truth = False  # a literal constant is not the sentinel object
+        elif k[0] == "sentinel":
+            if what == "sentinel":
+                truth = k[1] == arg
+            elif what == "none":
+                truth = False
+            elif what == "truthy":
+                truth = True  # a plain object() is truthy
+        elif k[0] == "call" and what == "sentinel":
+            truth = False  # the sentinel never leaves this module's locals: no call returns it
+        if truth is None:
+            return None
+        return (not truth) if neg else truth
+
+    def run(sts):
+        i = 0
+        while i + 1 < len(sts):
+            a, b = sts[i], sts[i + 1]
+            i += 1
+            if isinstance(a, ast.If) and not a.orelse and isinstance(b, ast.If) and isinstance(a.test, ast.Name) and isinstance(b.test, ast.Name) and a.test.id == b.test.id \
+                    and not any(isinstance(x, ast.Name) and x.id == a.test.id and isinstance(x.ctx, (ast.Store, ast.Del)) for st_ in a.body for x in ast.walk(st_)) \
+                    and not any(isinstance(x, (ast.Nonlocal, ast.Global)) for x in ast.walk(tree) if a.test.id in getattr(x, "names", ())):
+                # `if v: A` then `if v: B else: C` with v a local that A leaves alone: one decision
+                a.body = a.body + b.body
+                a.orelse = b.orelse
+                del sts[i]
+                i -= 1
+                n[0] += 1
+                continue
+            if not ((isinstance(a, ast.If) and a.orelse) or (isinstance(a, ast.Try) and not a.finalbody and a.handlers)) or not isinstance(b, ast.If):
+                continue
+            tv = test_var(b.test)
+            if tv is None or not small(b.body) or not small(b.orelse):
+                continue
+            v, kind, neg = tv
+            lv = []
+            leaves([a], lv)
+            ks = [known(look, v) for _tgt, look in lv]
+            ds = [decide(k, kind, neg) if k is not None and k[0] != "jump" else None for k in ks]
+            if not any(d is not None for d in ds) or len(lv) > 6:
+                continue
+            for (tgt, _look), k, d in zip(lv, ks, ds):
+                if k is not None and k[0] == "jump":
+                    continue
+                add = [_clone(x) for x in (b.body if d else b.orelse)] if d is not None else [_clone(b)]
+                if isinstance(tgt, ast.Try):
+                    tgt.orelse = add  # (an empty else clause is no else clause)
+                else:
+                    tgt.extend(add)
+            del sts[i]
+            i -= 1
+            n[0] += 1
+
+    for node in ast.walk(tree):
+        for field in ("body", "orelse", "finalbody"):
+            sts = getattr(node, field, None)
+            if isinstance(sts, list) and sts and isinstance(sts[0], ast.stmt):
+                run(sts)
+        if isinstance(node, ast.Try):
+            for h in node.handlers:
+                run(h.body)
+    if n[0]:
+        ast.fix_missing_locations(tree)
+    return n[0]
+
+
+def normalise_map_lambda(tree):
+    """`any(map(lambda v: E, S))` / `all(..)` is `any((E for v in S))`: S is evaluated once before the first element either way and
+    E is evaluated per element, lazily, in order"""
+    n = [0]
+
+    class R(ast.NodeTransformer):
+        def visit_Call(self, node):
+            self.generic_visit(node)
+            if isinstance(node.func, ast.Name) and node.func.id in ("any", "all") and len(node.args) == 1 and not node.keywords:
+                m = node.args[0]
+                if isinstance(m, ast.Call) and isinstance(m.func, ast.Name) and m.func.id == "map" and len(m.args) == 2 and not m.keywords \
+                        and isinstance(m.args[0], ast.Lambda) and not any(isinstance(a_, ast.Starred) for a_ in m.args):
+                    lam = m.args[0]
+                    a = lam.args
+                    if len(a.args) == 1 and not (a.posonlyargs or a.kwonlyargs or a.vararg or a.kwarg or a.defaults) \
+                            and not any(isinstance(x, (ast.Yield, ast.YieldFrom, ast.Await, ast.NamedExpr)) for x in ast.walk(lam.body)):
+                        gen = ast.GeneratorExp(elt=lam.body, generators=[ast.comprehension(target=ast.Name(id=a.args[0].arg, ctx=ast.Store()), iter=m.args[1], ifs=[], is_async=0)])
+                        node.args = [ast.copy_location(gen, m)]
+                        n[0] += 1
+            return node
+
+    R().visit(tree)
+    if n[0]:
+        ast.fix_missing_locations(tree)
+    return n[0]
+
+
+def normalise_and_if(tree):
+    """`if A and B: S` without an else branch is `if A: if B: S` (the operands are evaluated in the same order and S runs
+    exactly when all of them are true); path-based rules then see one decision per operand"""
+    n = 0
+    for node in ast.walk(tree):
+        if isinstance(node, ast.If) and not node.orelse and isinstance(node.test, ast.BoolOp) and isinstance(node.test.op, ast.And) and len(node.test.values) >= 2:
+            vals = node.test.values
+            inner = node.body
+            for v in reversed(vals[1:]):
+                nif = ast.If(test=v, body=inner, orelse=[])
+                ast.copy_location(nif, v)
+                inner = [nif]
+            node.test = vals[0]
+            node.body = inner
+            n += 1
+    if n:
+        ast.fix_missing_locations(tree)
+    return n
+
+
+def normalise_module_unpack(tree):
+    """module level `A, B, C = T` where T is a literal tuple of constants, or a (once bound) name for one, or the
+    construction `NT(c0, c1, ..)` of a typing.NamedTuple class of this module (iterating it yields the fields in
+    declaration order): the individual bindings `A = c0; B = c1; ..`"""
+    binds, classes = {}, {}
+    for st in tree.body:
+        if isinstance(st, ast.Assign):
+            for t in st.targets:
+                for n in ast.walk(t):
+                    if isinstance(n, ast.Name):
+                        binds.setdefault(n.id, []).append(st.value if t is n else None)
+        elif isinstance(st, ast.AnnAssign) and isinstance(st.target, ast.Name):
+            binds.setdefault(st.target.id, []).append(st.value)
+        elif isinstance(st, ast.ClassDef):
+            classes.setdefault(st.name, []).append(st)
+            binds.setdefault(st.name, []).append(None)
+        elif isinstance(st, (ast.FunctionDef, ast.AsyncFunctionDef)):
+            binds.setdefault(st.name, []).append(None)
+    nested_store = {n.id for st in tree.body if not isinstance(st, (ast.Assign, ast.AnnAssign)) for n in ast.walk(st)
+                    if isinstance(n, ast.Name) and isinstance(n.ctx, ast.Store) and isinstance(st, (ast.If, ast.Try, ast.For, ast.While, ast.With))}
+    glob = {x for n in ast.walk(tree) if isinstance(n, ast.Global) for x in n.names}
+
+    def once(name):
+        return len(binds.get(name, [])) == 1 and name not in nested_store and name not in glob
+
+    def const(e):
+        return isinstance(e, ast.Constant) or (isinstance(e, ast.UnaryOp) and isinstance(e.op, (ast.USub, ast.UAdd)) and isinstance(e.operand, ast.Constant))
+
+    def nt_fields(cls):
+        if len(cls.bases) != 1 or cls.keywords or cls.decorator_list:
+            return None
+        b = cls.bases[0]
+        if not ((isinstance(b, ast.Name) and b.id == "NamedTuple") or (isinstance(b, ast.Attribute) and b.attr == "NamedTuple" and isinstance(b.value, ast.Name) and b.value.id == "typing")):
+            return None
+        fields = []
+        for st in cls.body:
+            if isinstance(st, ast.AnnAssign) and isinstance(st.target, ast.Name):
+                fields.append((st.target.id, st.value))
+            elif isinstance(st, (ast.FunctionDef, ast.Pass)) or (isinstance(st, ast.Expr) and isinstance(st.value, ast.Constant)):
+                if isinstance(st, ast.FunctionDef) and st.name in ("__new__", "__iter__", "__init__"):
+                    return None
+            else:
+                return None
+        return fields
+
+    def elems(e, depth=0):
+        if isinstance(e, ast.Tuple) and all(const(x) for x in e.elts):
+            return list(e.elts)
+        if isinstance(e, ast.Name) and depth < 3 and once(e.id) and binds[e.id][0] is not None:
+            return elems(binds[e.id][0], depth + 1)
+        if isinstance(e, ast.Call) and isinstance(e.func, ast.Name) and e.func.id in classes and once(e.func.id) \
+                and not any(isinstance(a, ast.Starred) for a in e.args) and all(k.arg for k in e.keywords):
+            fields = nt_fields(classes[e.func.id][0])
+            if fields is None or len(e.args) > len(fields):
+                return None
+            vals = dict(zip([f for f, _ in fields], e.args))
+            for k in e.keywords:
+                if k.arg in vals or k.arg not in dict(fields):
+                    return None
+                vals[k.arg] = k.value
+            out = []
+            for f, d in fields:
+                v = vals.get(f, d)
+                if v is None or not const(v):
+                    return None
+                out.append(v)
+            return out
+        return None
+
+    cnt = 0
+    out = []
+    for st in tree.body:
+        if isinstance(st, ast.Assign) and len(st.targets) == 1 and isinstance(st.targets[0], (ast.Tuple, ast.List)) \
+                and all(isinstance(t, ast.Name) for t in st.targets[0].elts) and len({t.id for t in st.targets[0].elts}) == len(st.targets[0].elts):
+            vs = elems(st.value)
+            if vs is not None and len(vs) == len(st.targets[0].elts):
+                for t, v in zip(st.targets[0].elts, vs):
+                    a = ast.Assign(targets=[ast.Name(id=t.id, ctx=ast.Store())], value=_clone(v))
+                    ast.copy_location(a, st)
+                    ast.fix_missing_locations(a)
+                    out.append(a)
+                cnt += 1
+                continue
+        out.append(st)
+    if cnt:
+        tree.body = out
+    return cnt
+
+
+def normalise_renamed(tree):
+    """construct's `Renamed(X, newname="n")` / `Renamed(X, "n")` is what `"n" / X` evaluates to (Construct.__rtruediv__
+    with a str): spell it as the division the declarations use"""
+    imp = False
+    for st in tree.body:
+        if isinstance(st, ast.ImportFrom) and st.module in ("construct", "construct.core") and any(a.name == "Renamed" and a.asname is None for a in st.names):
+            imp = True
+    if not imp:
+        return 0
+    for n in ast.walk(tree):
+        if isinstance(n, (ast.FunctionDef, ast.ClassDef)) and n.name == "Renamed":
+            return 0
+        if isinstance(n, ast.Name) and n.id == "Renamed" and isinstance(n.ctx, ast.Store):
+            return 0
+    cnt = [0]
+
+    class R(ast.NodeTransformer):
+        def visit_Call(self, node):
+            self.generic_visit(node)
+            if isinstance(node.func, ast.Name) and node.func.id == "Renamed" and not any(isinstance(a, ast.Starred) for a in node.args):
+                kws = {k.arg: k.value for k in node.keywords}
+                if None in kws or set(kws) - {"newname"}:
+                    return node
+                name = kws.get("newname")
+                if name is None and len(node.args) == 2:
+                    sub, name = node.args
+                elif name is not None and len(node.args) == 1:
+                    sub = node.args[0]
+                else:
+                    return node
+                if isinstance(name, ast.Constant) and isinstance(name.value, str):
+                    cnt[0] += 1
+                    return ast.copy_location(ast.BinOp(left=name, op=ast.Div(), right=sub), node)
+            return node
+
+    R().visit(tree)
+    if cnt[0]:
+        ast.fix_missing_locations(tree)
+    return cnt[0]
+
+
+def normalise_private_bases(trees, inv):
+    """a new private class B(X) (not in the pinned inventory) whose only use in the whole program is as the single base of one class
+    C(B) of the same module, with no name defined in both bodies: C(X) with B's body in front of its own is the same class as far
+    as instances of C go (same attributes found in the same order, `super()` inside either body still continues at X)."""
+    n = {}
+    for path, tree in trees.items():
+        known = inv.get(path)
+        if known is None:
+            continue
+        changed = True
+        while changed:
+            changed = False
+            classes = [c for c in tree.body if isinstance(c, ast.ClassDef)]
+            for b in classes:
+                if b.name in known or not b.name.startswith("_") or b.decorator_list or b.keywords or len(b.bases) != 1:
+                    continue
+                refs = 0
+                for t2 in trees.values():
+                    for x in ast.walk(t2):
+                        if (isinstance(x, ast.Name) and x.id == b.name) or (isinstance(x, ast.Attribute) and x.attr == b.name) \
+                                or (isinstance(x, ast.alias) and x.name == b.name) or (isinstance(x, ast.Constant) and x.value == b.name):
+                            refs += 1
+                subs = [c for c in classes if c is not b and any(isinstance(x, ast.Name) and x.id == b.name for x in c.bases)]
+                if refs != 1 or len(subs) != 1:
+                    continue
+                c = subs[0]
+                if len(c.bases) != 1 or c.keywords or tree.body.index(c) < tree.body.index(b):
+                    continue
+
+                def names(cls):
+                    out = set()
+                    for st in cls.body:
+                        if isinstance(st, (ast.FunctionDef, ast.AsyncFunctionDef, ast.ClassDef)):
+                            out.add(st.name)
+                        else:
+                            out |= {x.id for x in ast.walk(st) if isinstance(x, ast.Name) and isinstance(x.ctx, ast.Store)}
+                    return out
+                both = names(b) & names(c)
+                if both:
+                    # a method of B that C overrides is never reached through an instance of C - unless C asks for it via super()
+                    fb = {st.name for st in b.body if isinstance(st, ast.FunctionDef)}
+                    fc = {st.name for st in c.body if isinstance(st, ast.FunctionDef)}
+                    sup = {x.attr for x in ast.walk(c) if isinstance(x, ast.Attribute) and isinstance(x.value, ast.Call) and isinstance(x.value.func, ast.Name)
+                           and x.value.func.id == "super"}
+                    if not (both <= fb and both <= fc) or (both & sup) or any(isinstance(x, ast.Name) and x.id == "super" and not isinstance(getattr(x, "ctx", None), ast.Load)
+                                                                              for x in ast.walk(c)):
+                        continue
+                    b.body = [st for st in b.body if not (isinstance(st, ast.FunctionDef) and st.name in both)] or [ast.Pass()]
+                # explicit two-argument super(B, self) / references to __class__ would change meaning
+                if any(isinstance(x, ast.Name) and x.id == "__class__" for x in ast.walk(b)):
+                    continue
+                doc = lambda st: isinstance(st, ast.Expr) and isinstance(st.value, ast.Constant) and isinstance(st.value.value, str)  # noqa: E731
+                bb = [st for st in b.body if not isinstance(st, ast.Pass) and not doc(st)]
+                cb = [st for st in c.body if not isinstance(st, ast.Pass)]
+                c.body = (cb[:1] if cb and doc(cb[0]) else []) + bb + (cb[1:] if cb and doc(cb[0]) else cb) or [ast.Pass()]
+                c.bases = b.bases
+                tree.body.remove(b)
+                n[path] = n.get(path, 0) + 1
+                changed = True
+                break
+        if path in n:
+            ast.fix_missing_locations(tree)
+    return n
+
+
 def normalise_program(trees):
     """trees: path -> ast.Module (mutated in place).  Returns {path: number of inlined call sites}."""
     reshaped = {}
+    inv_pb = inventory()
+    if inv_pb:
+        for path_, k_ in normalise_private_bases(trees, inv_pb).items():
+            reshaped[path_] = reshaped.get(path_, 0) + k_
     for path, tree in trees.items():
         n_ = normalise_match(tree)
         n_ += normalise_walrus(tree)
         n_ += normalise_suppress(tree)
+        n_ += normalise_module_unpack(tree)
+        n_ += normalise_straight_factories(tree)
         n_ += normalise_count_loops(tree)
         n_ += normalise_search_loops(tree)
         n_ += normalise_reduce(tree)
@@ -2797,11 +3800,16 @@ def normalise_program(trees):
         for path, tree in trees.items():
             known0 = inv0.get(path)
             if known0 is None:
+                kr_ = normalise_renamed(tree)
+                if kr_:
+                    reshaped[path] = reshaped.get(path, 0) + kr_
                 continue
             for x_ in ast.walk(tree):
                 for ch_ in ast.iter_child_nodes(x_):
                     ch_._parent = x_
             k_ = normalise_class_consts(tree, set(known0), [t2 for p2, t2 in trees.items() if p2 != path])
+            k_ += normalise_new_consts(tree, set(known0))
+            k_ += normalise_record_consts(tree, set(known0))
             k_ += normalise_partial(tree, set(known0))
             k_ += normalise_local_lambdas(tree, set(known0))
             k_ += normalise_local_procs(tree, set(known0))
@@ -2809,6 +3817,7 @@ def normalise_program(trees):
             for x_ in ast.walk(tree):
                 if hasattr(x_, "_parent"):
                     del x_._parent
+            k_ += normalise_renamed(tree)
             if k_:
                 reshaped[path] = reshaped.get(path, 0) + k_
     inv = inventory()
@@ -2922,8 +3931,16 @@ def normalise_program(trees):
             while normalise_ifexp(tree):
                 pass
             normalise_shortcircuit(tree)
+            normalise_table_unroll(tree)
             normalise_try_getattr(tree)
+            normalise_dict_build(tree, known)
+            normalise_local_records(tree, known)
+            normalise_jump_thread(tree)
             ast.fix_missing_locations(tree)
+    for path, tree in trees.items():
+        if path in stats and normalise_renamed(tree):
+            ast.fix_missing_locations(tree)
+        normalise_map_lambda(tree)
     for path, n_ in reshaped.items():
         stats[path] = stats.get(path, 0) + n_
     return stats
